@@ -33,7 +33,8 @@ impl XorShiftRng {
     }
 
     pub fn next_usize(&mut self, max: usize) -> usize {
-        (self.random() * max as f64) as usize
+        // random() can round up to 1.0: the result must stay below `max`
+        ((self.random() * max as f64) as usize).min(max.saturating_sub(1))
     }
 
     pub fn random(&mut self) -> f64 {
